@@ -285,7 +285,13 @@ func (w *world) syncRun(a simrt.Action) {
 			served[k] += n
 		}
 	}
-	w.lg.Add("sync: peers %d honest-only %v reached %v height %d of %d", npeers, allHonest, reached, got, target)
+	if allHonest {
+		w.lg.Add("sync: peers %d honest-only reached %v height %d of %d", npeers, reached, got, target)
+	} else {
+		// how far the node gets before the budget ends depends on which peer the pool happens to ask (map order)
+		// and on the runtime's choice among ready select cases; the safety verdicts below do not
+		w.lg.Add("sync: peers %d, some malicious: verdicts only", npeers)
+	}
 	if os.Getenv("VERIF_DEBUG_SEED") != "" {
 		fmt.Printf("  sync: peers %d all honest %v reached %v height %d target %d served %v panic %q\n", npeers, allHonest, reached, got, target, served, inc.PanicVal)
 	}
